@@ -30,17 +30,17 @@ type opInfo struct {
 
 // index is a digest of a trace shared by the oracles.
 type index struct {
-	sc        *Scenario
-	res       *Result
-	tr        []Rec
-	ops       []opInfo
-	judge     int
-	teardown  int
-	horizon   int
-	discAt    int // first "cause disconnect" (-1)
-	tx        []int
-	rx        []int
-	complete  bool // judged without a cap
+	sc       *Scenario
+	res      *Result
+	tr       []Rec
+	ops      []opInfo
+	judge    int
+	teardown int
+	horizon  int
+	discAt   int // first "cause disconnect" (-1)
+	tx       []int
+	rx       []int
+	complete bool // judged without a cap
 }
 
 func buildIndex(sc *Scenario, res *Result) *index {
